@@ -172,12 +172,23 @@ theorem WCtx.finishBatch_rel (c : WCtx) (batch : List WReq) (tail : Option WReq)
   cases tail with
   | none =>
     simp only at hnd ⊢
-    have h := WCtx.toRecv_rel _ hnd
-    simpa [foldl_emit_w] using h
+    have h := WCtx.nonFlush_rel _ (.removeChunks []) rfl hnd
+    have h' := h.mono (cur := newestId c.w.files) (tb := []) (rest := c.w.queue)
+      (fun id => by simp [foldl_emit_w, infl, inflightFrom]) (by simp [foldl_emit_w, annIds])
+    simpa using h'
   | some r =>
-    simp only at hnd ⊢
-    have h := WCtx.nonFlush_rel _ r (ht r rfl) hnd
-    simpa [foldl_emit_w] using h
+    cases r with
+    | write u d cb => exact absurd (ht _ rfl) (by simp [WReq.isWrite])
+    | appendFile n p =>
+      simp only at hnd ⊢
+      have h := WCtx.nonFlush_rel _ (.removeChunks []) rfl hnd
+      refine h.mono (fun id => ?_) ?_
+      · simp [foldl_emit_w, newestId_append, infl, inflightFrom]
+      · simp [foldl_emit_w, newestId_append, annIds]
+    | removeChunks ids =>
+      simp only at hnd ⊢
+      have h := WCtx.nonFlush_rel _ (.removeChunks ids) rfl hnd
+      simpa [foldl_emit_w] using h
 
 theorem WCtx.startSync_rel (c : WCtx) (batch : List WReq) (tail : Option WReq)
     (ht : tailOK tail) (hnd : (c.startSync batch tail).w.pc ≠ .dead) :
